@@ -43,7 +43,11 @@ pub fn read_length(s: &mut dyn Read) -> RdpResult<u16> {
 /// assert_eq!(s2.into_inner(), [0x81, 0x10]);
 /// ```
 pub fn write_length(length: u16) -> RdpResult<Trame> {
-    if length > 0x7f {
+    if length > 0x7fff {
+        // the two bytes form only holds 15 bits
+        Err(Error::RdpError(RdpError::new(RdpErrorKind::InvalidSize, "PER: length too large to be encoded")))
+    }
+    else if length > 0x7f {
         Ok(trame![U16::BE(length | 0x8000)])
     }
     else {
